@@ -127,7 +127,7 @@ def run(ctx):
         # counts, sizes, lengths, offsets and indexes first (the "length-field saturation" of the property), the rest by a seed-rotating stride
         hot = [(a, b) for a, b, n in named if re.search(r'count|size|len|num|entr|offset|index|idx|pos|start|end|width|height|version|type|flag', n, re.I)]
         cold = [(a, b) for a, b, n in named if (a, b) not in set(hot)]
-        cap = (300 if f in pick else 120) if th else (40 if not any(x in f for x in force) else 400)
+        cap = (200 if f in pick else 80) if th else (40 if not any(x in f for x in force) else 400)
         def stride(lst, k):
             if len(lst) <= k:
                 return lst
